@@ -28,6 +28,46 @@ UREL = "ImageD11/unitcell.py"
 CFILE = "src/cdiffraction.c"
 
 
+def elementwise_map(scope, value, source):
+    """is `value` one new element per element of `source` (same length, same order)?  True / False / None (construction not understood):
+    [f(u) for u in source], list(map(f, source)), or a name built by  X = []; for u in source: X.append(f(u))"""
+    if isinstance(value, ast.ListComp) and len(value.generators) == 1:
+        g = value.generators[0]
+        return nows(src(g.iter)) == source and not g.ifs
+    if isinstance(value, ast.Call) and src(value.func) in ("list", "tuple") and len(value.args) == 1:
+        inner = value.args[0]
+        if isinstance(inner, ast.Call) and src(inner.func) == "map" and len(inner.args) == 2:
+            return nows(src(inner.args[1])) == source
+        if isinstance(inner, ast.GeneratorExp) and len(inner.generators) == 1:
+            return nows(src(inner.generators[0].iter)) == source and not inner.generators[0].ifs
+        return None
+    if isinstance(value, ast.Name):
+        X = value.id
+        inits = [a for a in ast.walk(scope) if isinstance(a, ast.Assign) and any(isinstance(t, ast.Name) and t.id == X for t in a.targets)]
+        if len(inits) != 1 or not is_empty_list(inits[0].value):
+            return None
+        muts = []
+        for c in ast.walk(scope):
+            if isinstance(c, ast.Call) and isinstance(c.func, ast.Attribute) and isinstance(c.func.value, ast.Name) and c.func.value.id == X \
+                    and c.func.attr in ("append", "extend", "insert", "pop", "remove", "sort", "reverse", "clear"):
+                muts.append(c)
+            if isinstance(c, ast.AugAssign) and isinstance(c.target, ast.Name) and c.target.id == X:
+                return None
+        loops = [l for l in ast.walk(scope) if isinstance(l, ast.For) and nows(src(l.iter)) == source]
+        if len(loops) != 1 or not muts:
+            return None if not loops else False
+        lp = loops[0]
+        direct = [s_.value for s_ in lp.body if isinstance(s_, ast.Expr) and isinstance(s_.value, ast.Call)]
+        if any(m_.func.attr != "append" for m_ in muts):
+            return False
+        if len(muts) != 1 or not any(m_ is d for m_ in muts for d in direct):
+            return False      # appended under a condition, twice per element, or outside the loop over the source
+        if lp.orelse or any(isinstance(x, (ast.Break, ast.Continue, ast.Return)) for x in ast.walk(lp)):
+            return False
+        return True
+    return None
+
+
 def run(R):
     m = pyfacts.module(R, REL)
     if R.want("C08.R1"):
@@ -199,12 +239,14 @@ def r1(R, m):
                 continue      # another class's own attribute
             nother += 1
             ok = False
-            if how == "rebind" and isinstance(n, ast.Assign) and isinstance(n.value, ast.ListComp) and len(n.value.generators) == 1:
-                g = n.value.generators[0]
-                ok = nows(src(g.iter)) == nows(src(obj)) + ".ubis" and not g.ifs
+            fn = om.enclosing_function(n)
+            source = nows(src(obj)) + ".ubis"
+            if how == "rebind" and isinstance(n, ast.Assign):
+                ok = elementwise_map(fn if fn is not None else om.tree, n.value, source)
+                R.shape(ok is not None, "C08.R1", rel_, om.qualname(fn) if fn is not None else "<module>",
+                        "how the list assigned by '%s' is built (comprehension, map(), or an append loop over %s)" % (src(n)[:60], source))
             if how == "rebind" and isinstance(n, ast.Assign) and is_empty_list(n.value):
                 ok = True
-            fn = om.enclosing_function(n)
             R.check(ok, "C08.R1", rel_, n.lineno, om.qualname(fn) if fn is not None else "<module>", src(n)[:80],
                     "an indexer's reported list is rebuilt outside scorethem by something other than an element-by-element "
                     "map of the accepted list", desc="%s: %s (element-wise map / reset)" % (rel_, src(n)[:50]))
